@@ -273,6 +273,17 @@ func c12Run(c *core.Ctx, i int) {
 						gen.Assign{Target: gen.Index{X: h.m(other), I: vr("kk"+fmt.Sprint(k), tStr), T: tNum}, Val: gen.Index{X: h.m(name), I: vr("kk"+fmt.Sprint(k), tStr), T: tNum}}}}}}},
 				printCall(sl("eq"), gen.Binary{Op: "==", L: h.m(name), R: h.m(other), T: tBool}, gen.Binary{Op: "!=", L: h.m(other), R: h.m(name), T: tBool}, h.m(other)))
 			c.Cover("op", "equality-other-order")
+			// same size, another key set; equal up to one value; -0 written over 0
+			o2 := other + "b"
+			h.stmts = append(h.stmts, gen.Decl{Name: o2, T: tMapN, Typed: true},
+				gen.For{Var: "kq" + fmt.Sprint(k), VarT: tStr, Over: h.m(other), Body: []gen.Stmt{
+					gen.Assign{Target: gen.Index{X: h.m(o2), I: gen.Binary{Op: "+", L: vr("kq"+fmt.Sprint(k), tStr), R: sl([]string{"", "", "2"}[r.Intn(3)]), T: tStr}, T: tNum}, Val: gen.Index{X: h.m(other), I: vr("kq"+fmt.Sprint(k), tStr), T: tNum}}}},
+				gen.Assign{Target: gen.Dot{X: h.m(o2), Key: "a", T: tNum}, Val: nl(0)}, gen.Assign{Target: gen.Dot{X: h.m(other), Key: "a", T: tNum}, Val: nl(0)},
+				gen.If{Conds: []gen.Expr{gen.BoolLit{V: r.Intn(2) == 0}}, Blocks: [][]gen.Stmt{{gen.Assign{Target: gen.Dot{X: h.m(other), Key: "zz", T: tNum}, Val: nl(1)}, gen.Assign{Target: gen.Dot{X: h.m(o2), Key: "yy", T: tNum}, Val: nl(1)}}}},
+				printCall(sl("eq2"), gen.Binary{Op: "==", L: h.m(other), R: h.m(o2), T: tBool}, gen.Binary{Op: "!=", L: h.m(o2), R: h.m(other), T: tBool}, call("len", tNum, toAny(h.m(other))), call("len", tNum, toAny(h.m(o2)))),
+				gen.Assign{Target: gen.Dot{X: h.m(o2), Key: "a", T: tNum}, Val: gen.Binary{Op: "*", L: nl(0), R: nl(-1), T: tNum}},
+				printCall(sl("negzero"), h.m(o2), gen.Binary{Op: "/", L: nl(1), R: gen.Dot{X: h.m(o2), Key: "a", T: tNum}, T: tNum}))
+			c.Cover("op", "equality-same-size-other-keys")
 		}
 		h.observe(names[r.Intn(len(names))])
 	}
